@@ -46,7 +46,7 @@ SeqToSet(s) == {s[i] : i \in 1..Len(s)}
 FreeScalars == {"dir", "filename", "pkgname", "structname", "template", "template-schema"}
 Bools       == {"force-file-write", "require-template-schema-exists", "all", "recursive"}
 Regexes     == {"include-interface-regex", "exclude-interface-regex"}
-EnvCapable  == FreeScalars \cup Bools \cup Regexes \cup {"formatter", "log-level"}
+EnvCapable  == FreeScalars \cup Bools \cup Regexes \cup {"formatter", "log-level", "build-tags"}
 AllParams   == PerMock \cup PerFile \cup PerPackage \cup TopOnly
 \* template-data seen through a BUILT-IN template: the keys the matryer template documents (with-resets,
 \* stub-impl, skip-ensure are per-mock switches) -- a second focus on the parameter template-data
@@ -58,7 +58,7 @@ RealParam(p) == IF p \in TDBuiltin THEN "template-data" ELSE p
 
 ParamSeq == <<"dir", "filename", "pkgname", "structname", "template-data", "replace-type", "template", "template-schema",
               "require-template-schema-exists", "formatter", "force-file-write", "all", "include-interface-regex",
-              "exclude-interface-regex", "recursive", "exclude-subpkg-regex", "log-level">>
+              "exclude-interface-regex", "recursive", "exclude-subpkg-regex", "log-level", "build-tags">>
 ParamIdx(p) == CHOOSE i \in 1..Len(ParamSeq) : ParamSeq[i] = p
 
 \* may level n carry parameter p at all?
@@ -67,7 +67,10 @@ Allowed(p, n) ==
   CASE k = "env"  -> p \in EnvCapable
     [] k = "flag" -> p = "log-level"
     [] p = "log-level" -> k = "root"
-    [] p \in PerPackage -> k \in {"root", "pkg"}
+    [] p = "build-tags" -> k = "root"
+    \* per-package parameters written on an interface or a configs entry are not meaningful there: the contract
+    \* (evaluated on the package's chain) ignores them, and so must the code (no leak UPWARDS)
+    [] p \in PerPackage -> k \in {"root", "pkg", "iface", "entry"}
     [] OTHER -> TRUE
 
 Formatters == <<"noop", "gofmt", "goimports">>
@@ -92,12 +95,15 @@ TDRich(n, h) ==
     [] h = 2  -> M([nest |-> M([x |-> S(n), deep |-> M(("q" :> S(n)) @@ (only :> S(n)))])])
     [] h = 3  -> M([k |-> S(n), nest |-> M((only :> S(n)) @@ ("deep" :> M(only :> S(n))))])
     [] h = 4  -> M([k |-> S("#false"), nest |-> M(("x" :> S("#false")) @@ (only :> S(n)))])   \* zero-ish leaves
+    [] h = 10 -> M([k |-> S("#list:" \o n), nest |-> S("#list:" \o n)])                     \* a list where other levels have a map
+    [] h = 11 -> M([k |-> S("#zero"), nest |-> M([x |-> S("#empty"), deep |-> S("#zero")])])  \* 0 and "" are values, not "unset"
     [] h = 5  -> M([nest |-> S(n)])                      \* scalar where other levels have a map
     [] h = 6  -> EmptyMap                                \* explicit {}
     [] h = 7  -> M([k |-> S(n)])
     [] h = 8  -> M([nest |-> EmptyMap])                  \* explicit empty nested map
     [] OTHER  -> M(("nest" :> M([deep |-> EmptyMap, y |-> S(n)])) @@ (only :> S(n)))
-NRich == 10
+NRich == 12
+OddShapes == <<5, 2, 10, 11>>      \* by rank in S: scalar / list / zero over map and map over scalar, in both directions
 
 KindKey(n) == CASE KindOf(n) = "root" -> "Ur" [] KindOf(n) = "pkg" -> "Up" [] KindOf(n) = "iface" -> "Ui" [] OTHER -> "Ue"
 RTVal(n, h) ==
@@ -105,14 +111,16 @@ RTVal(n, h) ==
     [] h = 1 -> M([ty |-> M(("T0" :> S(n)) @@ (KindKey(n) :> S(n)))])
     [] h = 2 -> M([ty2 |-> M([V0 |-> S(n)])])
     [] h = 3 -> M([ty |-> M(KindKey(n) :> S(n)), ty2 |-> M([V0 |-> S(n)])])
-    [] OTHER -> M([ty |-> M(("T0" :> S(n)) @@ (KindKey(n) :> S(n))), ty2 |-> M([V0 |-> S(n)])])
-NRT == 5
+    [] h = 4 -> M([ty |-> M(("T0" :> S(n)) @@ (KindKey(n) :> S(n))), ty2 |-> M([V0 |-> S(n)])])
+    [] h = 5 -> EmptyMap                                  \* explicit {}: adds nothing, hides nothing
+    [] OTHER -> M([ty |-> EmptyMap, ty2 |-> M([V0 |-> S(n)])])
+NRT == 7
 
 \* include / exclude "regexes" (sets of letters), exclusion lists (sequences of sub-package tags)
 RegexAt(n, h) ==
   CASE n = "env"  -> IF h % 2 = 0 THEN {"A", "D", "E"} ELSE {"A"}
     [] n = "root" -> IF h % 2 = 0 THEN {"D"} ELSE {"D", "E"}
-    [] n = "p1"   -> IF h % 2 = 0 THEN {"E"} ELSE {"A", "E"}
+    [] n = "p1"   -> IF h % 2 = 0 THEN {"E"} ELSE {}             \* {} = the explicit empty string: cancels an inherited regex
     [] n = "p2"   -> IF h % 2 = 0 THEN {"A", "D"} ELSE {"D"}
     [] OTHER      -> {"E"}
 ExclAt(n, h) ==
@@ -144,6 +152,7 @@ ValueAt(p, n, h, profile) ==
 (* chain worlds *)
 ChainOf(p) ==
   CASE p = "log-level" -> <<"env", "root", "flag">>
+    [] p = "build-tags" -> <<"env", "root">>
     [] p = "exclude-subpkg-regex" -> <<"root", "p1">>
     [] p \in PerPackage -> <<"env", "root", "p1">>
     [] p \in MapParams \cup TDBuiltin -> <<"root", "p1", "p1A", "p1A1">>
@@ -151,6 +160,9 @@ ChainOf(p) ==
 
 SiblingOf(n) ==
   CASE n = "p1" -> {"p2"} [] n = "p1A" -> {"p1B", "p2A"} [] n = "p1A1" -> {"p1A2", "p1B1"} [] OTHER -> {}
+
+\* per-package parameters also written where they mean nothing (an interface `config`, a configs entry)
+NoiseNodes(dd) == IF dd.param \in PerPackage /\ Cardinality(dd.S) % 2 = 1 THEN {"p1A", "p1B1", "p2A", "p2C"} ELSE {}
 
 ProfileOf(p) ==
   CASE p \in {"template"} -> "template"
@@ -179,7 +191,8 @@ NVar(p, SS) ==
 \* the value index h of level n in a chain world
 ChainH(dd, n) ==
   LET p == dd.param  ch == ChainOf(p)  b == Base(p) IN
-  IF n \notin SeqToSet(ch)
+  IF n \in NoiseNodes(dd) THEN 1       \* all / recursive: true, a regex, a list -- anything that would show if it leaked
+  ELSE IF n \notin SeqToSet(ch)
   THEN \* a sibling: differs from its counterpart
        LET c == CHOOSE x \in dd.S : n \in SiblingOf(x) IN
        IF b > 1 THEN (IF Tier = "thorough" THEN Digit(dd.var, b, RankIn(ch, dd.S, c)) ELSE dd.var + RankIn(ch, dd.S, c)) + 1
@@ -187,7 +200,10 @@ ChainH(dd, n) ==
   ELSE IF b > 1
        THEN IF Tier = "thorough" THEN Digit(dd.var, b, RankIn(ch, dd.S, n)) ELSE dd.var + RankIn(ch, dd.S, n)
        ELSE IF p \in MapParams
-            THEN IF dd.var <= 1 THEN (dd.var + RankIn(ch, dd.S, n)) % 4 ELSE 4 + ((dd.var + NodeIdx(n)) % 6)
+            THEN IF p = "replace-type" THEN (IF dd.var <= 1 THEN (dd.var + RankIn(ch, dd.S, n)) % 4 ELSE 4 + ((dd.var + NodeIdx(n)) % 2))
+                 ELSE IF dd.var = 0 THEN RankIn(ch, dd.S, n) % 4
+                 ELSE IF dd.var = 1 THEN OddShapes[(RankIn(ch, dd.S, n) % 4) + 1]
+                 ELSE 4 + ((dd.var + NodeIdx(n)) % 8)
             ELSE dd.var
 
 ShareModes(p) ==
@@ -263,7 +279,7 @@ BgSet(bg, n, p) == n \in DOMAIN bg /\ p \in DOMAIN bg[n]
 \* accepts exactly the sids of the mocks the contract expects to be validated against it)
 SidNodes == {r.id : r \in {x \in NodeRecs : x.kind = "entry" \/ (x.kind = "iface" /\ EntryNodes(x.id) = {} /\ x.pkg \notin Unchecked)}}
 
-ChainFocusNodes(dd) == dd.S \cup (IF dd.sib THEN UNION {SiblingOf(n) : n \in dd.S} ELSE {})
+ChainFocusNodes(dd) == dd.S \cup (IF dd.sib THEN UNION {SiblingOf(n) : n \in dd.S} ELSE {}) \cup NoiseNodes(dd)
 
 ChainIsSet(dd, n, p) ==
   LET bg == Bg(ProfileOf(dd.param), dd.param, "p1" \in dd.S) IN
@@ -376,6 +392,6 @@ Emit == LET e == Export(d) IN
         IF e.wellformed THEN PrintT(<<"CASE", ToJson(e)>>) ELSE PrintT(<<"SKIP", ToJson(d)>>)
 
 \* the tree itself, exported once
-Tree == [nodes |-> NodeRecs, decl |-> Decl, subs |-> Subs, unchecked |-> Unchecked, nodeseq |-> NodeSeq]
+Tree == [nodes |-> NodeRecs, decl |-> Decl, tagged |-> Tagged, subs |-> Subs, unchecked |-> Unchecked, nodeseq |-> NodeSeq]
 ASSUME PrintT(<<"TREE", ToJson(Tree)>>)
 =============================================================================
